@@ -116,7 +116,10 @@ def gen_scenario(rng, small=False):
         if rng.random() < 0.5:
             total = 150 * nreq
             c["pieces"] = sorted(rng.sample(range(1, total), rng.choice([1, 2, 5])))
-        if rng.random() < 0.3:
+        if any(r.get("expect") for r in reqs) and rng.random() < 0.4:
+            # the client sends the body of an expecting request only after 100 Continue (or a final response)
+            c["waiting"] = True
+        elif rng.random() < 0.3:
             c["pingpong"] = True
         elif adj.get("channel_request_lookahead", 0) == 0 and rng.random() < 0.25:
             # a client that half-closes after its pipeline still gets every response (without
@@ -135,6 +138,12 @@ DIRECTED = [
     {"adj": {"threads": 1, "channel_request_lookahead": 2, "send_bytes": 1, "recv_bytes": 64}, "sndbuf": 65536,
      "conns": [{"requests": [{"n": 2500, "k": "cl"}, {"m": "POST", "body": 300, "expect": True, "n": 1, "k": "cl"}, {"n": 5, "k": "cl"}],
                 "sndbuf": 65536, "send_caps": [300, 300, 0]}]},
+    # a large response drained slowly, then an expecting request (no look-ahead: its head is read only after
+    # the first request has left the queue -- the I/O thread then finds no request queued while the worker is
+    # still at the end of service())
+    {"adj": {"threads": 1, "channel_request_lookahead": 0, "asyncore_use_poll": False, "send_bytes": 1}, "sndbuf": 512,
+     "conns": [{"requests": [{"n": 1500, "k": "chunks", "w": 300}, {"m": "POST", "body": 40, "expect": True, "n": 30, "k": "cl"},
+                             {"n": 10, "k": "cl"}], "sndbuf": 512, "waiting": True}]},
     # scenario 0: two workers, lookahead 1, responses larger than the send buffer (both threads flush)
     {"adj": {"threads": 2, "channel_request_lookahead": 1, "send_bytes": 1}, "sndbuf": 512,
      "conns": [{"requests": [{"n": 1500, "k": "chunks", "w": 300}, {"n": 700, "k": "write", "w": 100}, {"n": 20, "k": "cl"}], "sndbuf": 512,
@@ -157,11 +166,14 @@ def plan(tier, seed):
     for i in range(nshards):
         specs.append({"mode": "random", "seed": seed * 1009 + i, "n": per})
     # systematic single pre-emption: directed scenarios always, generated ones in addition
-    nenum = 3 if tier == "quick" else 40
+    nenum = 4 if tier == "quick" else 40
     parts = 16 if tier == "quick" else 8
     for s in range(min(nenum, len(DIRECTED))):
         for p in range(parts):
             specs.append({"mode": "enum", "scn": DIRECTED[s], "part": p, "parts": parts, "cap": 900 if tier == "quick" else None})
+    for s in ([0] if tier == "quick" else [0, 1, 3]):
+        for p in range(8):
+            specs.append({"mode": "enum2", "scn": DIRECTED[s], "part": p, "parts": 8, "window": 25 if tier == "quick" else 80})
     for i in range(2 if tier == "quick" else 16):
         specs.append({"mode": "real", "seed": seed * 977 + i, "n": 12 if tier == "quick" else 40})
     for s in range(max(0, nenum - len(DIRECTED))):
@@ -443,6 +455,25 @@ def run_shard(spec):
             if len(acc.samples) < 1:
                 acc.sample({"scenario": scn, "strategy": strat, "steps": o.steps, "switches": o.switches,
                             "verdicts": [k for k, _ in vs]})
+    elif spec["mode"] == "enum2":
+        # two pre-emptions: the worker is interrupted around the end of a request (it has taken the
+        # request off the queue, or is about to answer the expectation of the next one), another thread
+        # runs, and the I/O thread is interrupted in the middle of flushing output -- back to the worker
+        scn = spec["scn"]
+
+        def first(site, cur):
+            return isinstance(site, tuple) and site[0] in ("service", "send_continue", "finish", "close")
+
+        def second(site):
+            return isinstance(site, tuple) and site[0] in ("_flush_some", "_flush_some_if_lockable", "handle_write", "send", "get", "skip")
+
+        k = 0
+        for sw in runner.double_preemptions(scn, first, window=spec.get("window", 25), second="other", second_filter=second):
+            k += 1
+            if k % spec["parts"] != spec["part"]:
+                continue
+            run_one(acc, scn, {"kind": "forced", "switches": sw}, "forced")
+        acc.count("enum2_schedules", k)
     else:
         if "scn" in spec:
             scn = spec["scn"]
@@ -451,11 +482,19 @@ def run_shard(spec):
         # pilot
         o = runner.run_scenario(scn, {"kind": "np"}, pilot=True)
         points = runner.single_preemptions(o.pilot)
+        # kept whatever the cap: every pre-emption of a worker at the end of a request (between taking the
+        # request off the queue and leaving service()), to whichever thread
+        focus = set()
+        for e in o.pilot:
+            if isinstance(e[2], tuple) and e[2][0] in ("service", "send_continue"):
+                focus.update((e[0], t) for t in e[1])
         runner.finish(o)
         if spec.get("cap") and len(points) > spec["cap"]:
             rng = random.Random(len(points))
-            points = sorted(rng.sample(points, spec["cap"]))
+            rest = [pt for pt in points if pt not in focus]
+            points = sorted(set(rng.sample(rest, min(len(rest), spec["cap"]))) | (focus & set(points)))
             acc.count("enum_capped")
+            acc.count("enum_focus_points", len(focus))
         mine = points[spec["part"] :: spec["parts"]]
         for step, tid in mine:
             run_one(acc, scn, {"kind": "forced", "switches": {str(step): tid}}, "forced")
